@@ -46,10 +46,11 @@ var specs = map[string]spec{
 	"C12": {
 		jobs: []job{
 			{name: "model", test: "TestC12Model", rapid: true, checks: [2]int{60, 2500}, shards: [2]int{12, 12}, secs: [2]int{900, 7200}},
+			{name: "table", test: "TestC12Table", secs: [2]int{300, 300}},
 			{name: "valueindep", test: "TestC12ValueIndependence", rapid: true, checks: [2]int{40, 1500}, shards: [2]int{4, 4}, secs: [2]int{900, 7200}},
 		},
-		rule:        "model = programs of the profiles REG/MEM/WALK/MEMSAFE: MVP-1's count must equal the sum over the executed instructions (reference trace) of fetch (MemoryAccess) + decode 1 + memory read for a load (MemoryAccess) + InstructionType.Cycles() + write-back (RegisterAccess for a register result, MemoryAccess for a store; ret counts up to execute), the constants being read from common/latency and from the code so that the formula is the oracle; MVP-2 <= MVP-1 on the same run; on every configuration cycles > 0 and cycles >= ceil(executed / max(2, parallelism)) — the relations that use the executed-instruction count are judged only on runs whose result equals the reference. valueindep = programs whose registers are split into control/address registers and data registers (data never feeds a branch, an address or a divisor; loads write data registers only), two initial states that differ only in data registers, the reference confirming identical pc and address traces: the cycle counts must be equal on every configuration. Non-trivial = (model) the trace has a load, a store and a taken transfer, (valueindep) the two runs end with different registers; distinct by (text, registers, memory image).",
-		assumptions: []string{"the latency constants themselves are pinned by the repository's TestBenchmarks, not by this check", "issue width bound max(2, parallelism) is deliberately loose"},
+		rule:        "model = programs of the profiles REG/MEM/WALK/MEMSAFE: MVP-1's count must equal the sum over the executed instructions (reference trace) of fetch (MemoryAccess) + decode 1 + memory read for a load (MemoryAccess) + InstructionType.Cycles() + write-back (RegisterAccess for a register result, MemoryAccess for a store; ret counts up to execute), the constants being read from common/latency and from the code so that the formula is the oracle; MVP-2 <= MVP-1 on the same run; on every configuration cycles > 0 and cycles >= ceil(executed / max(2, parallelism)) — the relations that use the executed-instruction count are judged only on runs whose result equals the reference. table = the 6 constants of common/latency and InstructionType.Cycles() of the 45 types against the documented values (loads 50, everything else 1), enumerated completely. valueindep = programs whose registers are split into control/address registers and data registers (data never feeds a branch, an address or a divisor; loads write data registers only), two initial states that differ only in data registers, the reference confirming identical pc and address traces: the cycle counts must be equal on every configuration. Non-trivial = (model) the trace has a load, a store and a taken transfer, (valueindep) the two runs end with different registers; distinct by (text, registers, memory image).",
+		assumptions: []string{"the documented latency table is the one of the pinned commit (common/latency cites its source; TestBenchmarks pins cycle counts derived from it): job 'table' compares the constants with it", "issue width bound max(2, parallelism) is deliberately loose"},
 	},
 	"C13": {
 		jobs: []job{
